@@ -239,4 +239,27 @@ def reactionRequest (r : Reg RKey) (fresh : Nat) (reactants products : Option (L
     | _, _ => (r, .fault "TypeError", none)
   | _, _ => (r, .fault "TypeError", none)
 
+/-! ### comparison of objects (`__lt__`, `__eq__`, `__hash__` are all functions of these keys) -/
+
+/-- domains: `==` compares (name, length), `<` and `hash` use the name only -/
+def domEq (a b : DKey) : Bool := a == b
+def domLt (a b : DKey) : Bool := strLt a.1 b.1
+def domHashKey (a : DKey) : String := a.1
+
+/-- macrostates: tuple of member complexes, compared member-wise by canonical form -/
+def mkeyLt (a b : MKey) : Bool := lexLt ckeyLt a b
+
+/-- reaction types are strings (a `None` type makes Python's `<` raise TypeError: outside the stated population) -/
+def optStrLt : Option String → Option String → Bool
+  | some a, some b => strLt a b
+  | _, _ => false
+
+/-- reactions: `(reactant forms, product forms, type)` compared as a tuple -/
+def rkeyLt (a b : RKey) : Bool :=
+  if a.1 = b.1 then (if a.2.1 = b.2.1 then optStrLt a.2.2 b.2.2 else lexLt memLt a.2.1 b.2.1)
+  else lexLt memLt a.1 b.1
+
+/-- Python's `a <= b` on tuples / strings for a strict order `lt` -/
+def leOf {α} [DecidableEq α] (lt : α → α → Bool) (a b : α) : Bool := a = b || lt a b
+
 end Dsd
